@@ -79,7 +79,7 @@ def main(argv=None):
             line = inspect.getsourcelines(fn)[1]
         except Exception:  # noqa
             filename, line = "<harness>", 0
-        g = fn.__globals__
+        g = getattr(fn, "__verif_ns__", None) or fn.__globals__
         pre = [condition_from_source_text(PRECONDITION, filename, line, p, g)
                for p in list(spec.pre) + list(args.extra_pre)]
         post_src = "False" if args.twin else spec.post
